@@ -43,6 +43,17 @@ func genC12(t *testing.T) {
 		c.Site, c.Stage, c.End = "Join", "Join", "complete"
 		runCase(t, c, hooks{online: c12Online})
 	}
+	runNil := func(c *caseT) {
+		n++
+		if n%common.NBatch != common.Batch {
+			return
+		}
+		// with a nil input the output may only close by cancel. The reader of the nil channel can never be released
+		// (ranging over a nil channel blocks for good), so no end game applies and the bubble's deadlock report for
+		// that goroutine is expected.
+		c.Site, c.Stage, c.End = "Join", "Join", "none"
+		runCase(t, c, hooks{online: c12Online})
+	}
 	// wide joins, live inputs: one producer goroutine serves all inputs in a given order (last input first,
 	// first input first, round robin) and closes them only at the end
 	for _, ni := range []int{2, 3, 6, 8, 9, 12, 17} {
@@ -98,6 +109,34 @@ func genC12(t *testing.T) {
 				c2.Script = script
 				run(&c2)
 			})
+		}
+	}
+	// the same channel passed twice (every element still once, closes with it); a nil channel among the inputs
+	// (it never closes, so without cancel the output must stay open)
+	for _, cp := range []int{0, 1, 3} {
+		for _, ni := range []int{1, 2} {
+			c := caseT{Cap: cp}
+			var seqs [][]string
+			for i := 0; i < ni; i++ {
+				c.Inputs = append(c.Inputs, ids(100*(i+1), 2))
+				seqs = append(seqs, []string{fmt.Sprintf("S%d", i), fmt.Sprintf("S%d", i), fmt.Sprintf("C%d", i)})
+			}
+			seqs = append(seqs, []string{"R0", "R0"})
+			interleavings(seqs, func(script []string) {
+				d := c
+				d.DupInput, d.Script, d.Comment = true, script, "first input passed twice"
+				run(&d)
+			})
+			for _, tail := range [][]string{{"D0", "A1000000"}, {"R0", "R0", "R0", "R0", "R0"}} {
+				nl := c
+				nl.NilInput, nl.Tick, nl.Comment = true, 1000000, "a nil channel among the inputs"
+				nl.Script = nil
+				for _, s := range seqs[:len(seqs)-1] {
+					nl.Script = append(nl.Script, s...)
+				}
+				nl.Script = append(nl.Script, tail...)
+				runNil(&nl)
+			}
 		}
 	}
 	nr := common.Pick(2500, 150000)
